@@ -3,7 +3,8 @@
 
   List-level transcriptions of what the model's `listRange`, `listTrim`, `listRowAt`, `zRangeRank`,
   `zDeleteRank` and `zRangeScore` compute on the already ordered rows, the deviation classifiers
-  for the places where SQLite's `LIMIT` does not clamp (D01, D09), and the lemmas that the property
+  for the places where SQLite's `LIMIT` does not clamp (D01; the raw `limit a, b - a + 1` of the
+  rank queries, which both callers now guard — D09 is repaired), and the lemmas that the property
   file `RedkaModel/Props/C02idx.lean` is built from.
 
   The key observation: both `sqlLimit s c l` and the Redis rule are a *prefix of the same suffix*
@@ -52,9 +53,10 @@ def modelSet {α} (l : List α) (i : Int) (x : α) : Option (List α) :=
 def modelRankRange {α} (l : List α) (a b : Int) : List α :=
   if a < 0 || b < 0 then [] else if a > b then [] else sqlLimit a (b - a + 1) l
 
-/-- the victims of `zDeleteRank`, early return included -/
+/-- the victims of `zDeleteRank`, both early returns included (`start < 0 || stop < 0`, and, since
+the repair of D09, `start > stop`) -/
 def modelRankDelete {α} (l : List α) (a b : Int) : List α :=
-  if a < 0 || b < 0 then [] else sqlLimit a (b - a + 1) l
+  if a < 0 || b < 0 then [] else if a > b then [] else sqlLimit a (b - a + 1) l
 
 /-- the three `limit` shapes of `zRangeScore` -/
 def modelOffsetCount {α} (l : List α) (offset count : Int) : List α :=
@@ -86,8 +88,10 @@ def trimDeviates (n : Nat) (a b : Int) : Bool :=
 def rangeDeviates (n : Nat) (a b : Int) : Bool :=
   !Model.rangePrecheck a b && trimDeviates n a b
 
-/-- D09 classifier for `DeleteWith.ByRank` (both ranks non-negative): negative count, offset inside -/
-def rankDeleteDeviates (n : Nat) (a b : Int) : Bool :=
+/-- where the RAW statement `limit a, b - a + 1` (both ranks non-negative) is not the Redis rank
+slice: negative count, offset inside. No caller reaches it: `zRangeRank` always returned early on
+`a > b`, and `zDeleteRank` does since the repair of D09 (this was the D09 classifier). -/
+def rawRankLimitDeviates (n : Nat) (a b : Int) : Bool :=
   decide (0 ≤ a ∧ 0 ≤ b ∧ b + 1 < a ∧ a < n)
 
 /-! ### `sqlLimit` and the Redis slice as prefixes of one suffix -/
@@ -238,7 +242,7 @@ theorem listRowAt_eq (db : DB) (kid i : Int) :
 /-! ### sorted-set ranks and LIMIT offset/count -/
 
 theorem sqlLimit_eq_rankSlice_iff {α} (l : List α) (a b : Int) (ha : 0 ≤ a) (hb : 0 ≤ b) :
-    sqlLimit a (b - a + 1) l = Spec.rankSlice l a b ↔ rankDeleteDeviates l.length a b = false := by
+    sqlLimit a (b - a + 1) l = Spec.rankSlice l a b ↔ rawRankLimitDeviates l.length a b = false := by
   have hr : Spec.rankSlice l a b =
       (l.drop (max a 0).toNat).take (if a > b then 0 else (b - a + 1).toNat) := by
     have h : (max a 0).toNat = a.toNat := by omega
@@ -249,7 +253,7 @@ theorem sqlLimit_eq_rankSlice_iff {α} (l : List α) (a b : Int) (ha : 0 ≤ a) 
     · have : ¬ (a < 0 ∨ b < 0 ∨ a > b) := by omega
       rw [if_neg this, if_neg hab]
   rw [sqlLimit_eq_take, hr, List.take_eq_take_iff, List.length_drop]
-  unfold rankDeleteDeviates
+  unfold rawRankLimitDeviates
   simp only [decide_eq_false_iff_not]
   split <;> split <;> omega
 
